@@ -488,6 +488,24 @@ pub fn run(tier: Tier) -> i32 {
 }
 
 pub fn replay_generic(id: &str, case: &serde_json::Value, only: Option<&dyn Fn(&ExpStruct) -> bool>, extra: Extra) -> i32 {
+    if case["fileset"].is_object() && case["expect_structs"].is_array() {
+        // replay of a hand-written repro of a known finding
+        let fs: crate::zeep::FileSet = serde_json::from_value(case["fileset"].clone()).expect("fileset");
+        let want: Vec<String> = case["expect_structs"].as_array().unwrap().iter().filter_map(|x| x.as_str().map(str::to_string)).collect();
+        let missing: Vec<String> = match crate::worker::run_single(&fs) {
+            Outcome::Ok { output, .. } => {
+                let have = crate::c11::struct_names(&output);
+                want.into_iter().filter(|w| !have.contains(w)).collect()
+            }
+            _ => want,
+        };
+        println!("missing structs: {missing:?}");
+        if missing.is_empty() {
+            return 0;
+        }
+        println!("VIOLATION property={id} replay=(this file)");
+        return 1;
+    }
     let ex = Externs::discover().expect("externs");
     let scratch = scratch_dir("c02r");
     let raw: RawModel = serde_json::from_value(case["raw"].clone()).expect("raw model");
@@ -529,8 +547,10 @@ pub fn member_namespaces(m: &Model, scan: &Scan) -> Vec<Failure> {
         for ef in es.fields.iter().filter(|f| !f.attr) {
             let Some(of) = found[0].fields.iter().find(|of| of.ya.rename.as_deref() == Some(ef.xml.as_str()) && !of.ya.attribute) else { continue };
             let want = &m.files[ef.ns_file].ns;
+            // the struct itself has to declare the prefix (a struct may be the root of a document),
+            // and nowhere in the file may the prefix mean something else
             let ok = match &of.ya.prefix {
-                Some(p) => prefix_uri.get(p).is_some_and(|u| u.len() == 1 && u.contains(want)),
+                Some(p) => prefix_uri.get(p).is_some_and(|u| u.len() == 1 && u.contains(want)) && found[0].ya.namespaces.iter().any(|(k, u)| k == p && u == want),
                 None => false,
             };
             if !ok {
